@@ -772,6 +772,42 @@ func (w *worker) run(i int, name string) {
 		// back to a healthy pipeline
 		_, _, _ = env.Reconcile("xr1")
 	}
+	// the composed kind is momentarily not served (discovery answers NoKindMatch) while the XR's
+	// composed resources are observed: whatever the reconcile does then, a function it calls is
+	// still handed EVERY existing composed resource of the XR
+	{
+		ff := func(_ int, verb string, k sim.Key) sim.Outcome {
+			if verb == "get" && k.Group == "nop.ex.org" && k.Kind == "NopA" {
+				return sim.NotServed
+			}
+			return sim.OK
+		}
+		w.drain()
+		snap = nil
+		armed = true
+		env.C.FaultFn, env.UC.FaultFn = ff, ff
+		_, rerr, _ := env.Reconcile("xr1")
+		env.C.FaultFn, env.UC.FaultFn = nil, nil
+		armed = false
+		c.Count("unserved_observation_reconciles", 1)
+		if snap != nil {
+			exp := reference(&t, snap)
+			for f := range t.Steps {
+				got := activeSrv[f].Take()
+				if len(got) == 0 || len(exp.reqs[f]) == 0 {
+					continue
+				}
+				c.Count("unserved_observation_requests_compared", 1)
+				if g, wnt := normalize(got[0]), normalize(exp.reqs[f][0]); !proto.Equal(g.GetObserved(), wnt.GetObserved()) {
+					fail("step-request-differs:observed:composed-kind-not-served", fmt.Sprintf("step %d was called (reconcile err %v) while reads of the composed kind answered NoKindMatch; the observed state it received differs from the XR's existing composed resources", f, rerr),
+						map[string]any{"case": t, "got_summary": summarize(got[0]), "want_summary": summarize(exp.reqs[f][0])})
+					break
+				}
+			}
+		}
+		w.drain()
+		_, _, _ = env.Reconcile("xr1")
+	}
 	// the runtime behind fn-0's endpoint is upgraded in place: first it only speaks v1beta1, then
 	// only v1 (the endpoint - a Service named after the function - and the revision stay the same)
 	if len(t.Steps) > 0 && !t.Steps[0].BetaOnly && activeSrv[0] != nil {
@@ -861,6 +897,7 @@ func main() {
 	c.Rule += " " + "A runtime upgraded in place behind an unchanged endpoint (v1 <-> v1beta1 only) must keep being served; a Terminating composed resource stays in the observed state."
 	c.Rule += " " + "Programs may return no context at all, and may shrink their requirements to nothing."
 	c.Rule += " " + "A third of the cases with composed kinds behind the XR controller's cache (reconciler built through the real CompositeReconcilerOptions)."
+	c.Rule += " " + "One reconcile during which reads of the composed kind answer NoKindMatch: a function that is called all the same receives every existing composed resource."
 	c.Assumptions = []string{"programs are test inputs executed by both sides; the contract (threading, rounds, observed construction) is written from the property statement", "the first reconcile of an XR is not judged (in-memory XR differs from the stored one)"}
 	c.Floor = 100
 	n := c.N(600, 12000)
